@@ -22,13 +22,52 @@ def mdp_arrays(view):
 
 def optimal_values(view, tol=1e-13, max_iter=200000):
     """V*(s) with absorbing states worth 0 (episode ends on entry).  Returns
-    (V, Q) ; Q is -inf for unavailable actions."""
+    (V, Q) ; Q is -inf for unavailable actions.
+
+    Howard policy iteration with exact linear solves (a handful of iterations
+    whatever the discount), cross-checked by a Bellman residual test; falls back
+    to plain value iteration if a solve is singular (improper policy at gamma=1)."""
     P, R, avail = mdp_arrays(view)
     g = view.gamma
     N = view.N
+    nonabs = [s for s in range(N) if s not in view.absorbing]
+    if not nonabs:
+        Q = np.full((N, R.shape[1]), -np.inf)
+        return np.zeros(N), Q
+    try:
+        pol = {s: int(np.argmax(np.where(avail[s], R[s], -np.inf))) for s in nonabs}
+        V = None
+        for it in range(200):
+            Pp = np.zeros((N, N))
+            rp = np.zeros(N)
+            for s in nonabs:
+                Pp[s] = P[s, pol[s]]
+                rp[s] = R[s, pol[s]]
+            V = np.linalg.solve(np.eye(N) - g * Pp, rp)
+            Q = R + g * P @ V
+            Q[~avail] = -np.inf
+            changed = False
+            for s in nonabs:
+                b = int(np.argmax(Q[s]))
+                if Q[s, b] > Q[s, pol[s]] + 1e-12 * (1 + abs(Q[s, b])):
+                    pol[s] = b
+                    changed = True
+            if not changed:
+                break
+        else:
+            raise np.linalg.LinAlgError("policy iteration did not settle")
+        Vb = np.zeros(N)
+        Vb[nonabs] = Q[nonabs].max(axis=1)
+        if not np.isfinite(V).all() or np.abs(Vb - V).max() > 1e-9 * (1 + np.abs(V).max()):
+            raise np.linalg.LinAlgError("Bellman residual too large")
+        V = V.copy()
+        for s in view.absorbing:
+            V[s] = 0.0
+        return V, Q
+    except np.linalg.LinAlgError:
+        pass
     V = np.zeros(N)
     Q = None
-    nonabs = [s for s in range(N) if s not in view.absorbing]
     for it in range(max_iter):
         Q = R + g * P @ V
         Q[~avail] = -np.inf
@@ -38,16 +77,6 @@ def optimal_values(view, tol=1e-13, max_iter=200000):
         V = nV
         if d < tol:
             break
-    # polish: exact solve of the greedy policy
-    pol = {s: int(np.argmax(Q[s])) for s in nonabs}
-    try:
-        Vp = evaluate_det(view, pol)
-        if np.abs(Vp - V).max() < 1e-7 * (1 + np.abs(V).max()):
-            V = Vp
-            Q = R + g * P @ V
-            Q[~avail] = -np.inf
-    except np.linalg.LinAlgError:
-        pass
     return V, Q
 
 
